@@ -1241,7 +1241,7 @@ def main(chk: C.Check, build: C.Build) -> None:
         "one render uses one undefined class (Environment.undefined); caller data contain no Undefined objects",
         "auto_escape off in the model (the oracle also runs with auto_escape on); DebugUndefined and user subclasses are outside",
         "outside the model (PyExc OtherPyError, compared as 'no verdict'): str(dict), tuples from dict iteration and dict.first, floats and "
-        "float-like strings, the map filter's _NULL sentinel, keyed sort / uniq, non-ASCII case mapping, the forloop object, now / today, "
+        "float-like strings, keyed sort / uniq, non-ASCII case mapping, the forloop object, now / today, "
         "object identity of two undefineds compared under StrictUndefined",
         "lambdas, ranges, template strings, tablerow, macros, with, include / render arguments, cycle, increment: oracle only",
     ]
